@@ -238,7 +238,7 @@ def run(chk):
                 break
         chk.ob("C13-R5", "series._temporal._catch_invalid_shift", bad is None,
                "raises iff the shift is not a string and is non-integer or >= 0 (13 values: negative / zero / positive integers, floats, keywords)"
-               if bad is None else f"shift={bad[0]!r}: {'raises' if bad[1] else 'accepted'} (documented: {'rejected' if bad[2] else 'accepted'})", m.loc(f))
+               if bad is None else f"shift={bad[0]!r}: {'raises' if bad[1] else 'accepted'} (documented: {'rejected' if bad[2] else 'accepted'})", m.loc(f), sure=True)
     except (fin.NotFinite, TypeError, ValueError) as ex:
         chk.undecided("C13-R5", "series._temporal._catch_invalid_shift", f"not evaluable: {ex}", m.loc(f))
     for name, f in sorted(meths.items()):
